@@ -61,6 +61,21 @@ theorem join_tie : afterLoop = "closeJoinChan" ∧ joinWaits = ["recvField"] ∧
     of C12 uses) -/
 theorem every_wait_has_done : (doScanWaits ++ startWaits).all (fun w => w.1 == "select" && (w.2.1 == "returnFalse" || w.2.1 == "breakLoop")) = true := by decide
 
+/-- the variant of the callback (Model/Retention.lean: `Sweep`) a value of the regenerated fact `storeCalls` selects: the
+    code's variant only when the COMPLETE list of methods DoScan and its callback call on the visited store is
+    VisitMailboxes (once, unconditionally) and RemoveMessage (one site, the guarded one of `removeGuard_tie`).  Any other
+    call on that store — PurgeMessages, AddMessage, MarkSeen, a second RemoveMessage site, the store handed to code
+    that is not followed — selects nothing: `Props.C12.delivery_between_snapshot_and_sweep_survives` and
+    `interleaved_removes_only_expired` are theorems about `removeEach`, and `purge_variant_loses_fresh_delivery` shows
+    what one extra mutating call does. -/
+def sweepOfCalls (l : List (String × Nat × String)) : Option Ibx.Model.Retention.Sweep :=
+  if l = [("RemoveMessage", 1, "removeGuard"), ("VisitMailboxes", 1, "once")] then some .removeEach else none
+
+/-- EVERY call DoScan and its callback make into the visited store: one VisitMailboxes, one guarded RemoveMessage, nothing else -/
+theorem storeCalls_tie : sweepOfCalls storeCalls = some .removeEach := by decide
+theorem storeCalls_list_tie : storeCalls = [("RemoveMessage", 1, "removeGuard"), ("VisitMailboxes", 1, "once")] := by decide
+example : sweepOfCalls [("PurgeMessages", 1, "conditional"), ("RemoveMessage", 1, "removeGuard"), ("VisitMailboxes", 1, "once")] = none := by decide
+
 /-- the model's reading of the two expressions -/
 example : Ibx.Model.Retention.cutoffOf 1000 300 = 700 := by decide
 example : Ibx.Model.Retention.expired 700 { box := [], id := 1, hdr := { sender := [], rcpts := [], subject := [], date := 699 }, seen := false, source := [] } = true := by decide
